@@ -24,9 +24,53 @@ def run_workbook(wb, pretty=False, **args):
 
 
 def run_form(form, pretty=False, with_headers=True):
-    wb = model.to_workbook_dict(form, with_headers=with_headers)
     args = {k: v for k, v in form.get("args", {}).items() if k in ("form_name", "default_language")}
+    if form.get("carrier"):
+        data = spreadsheet_of(form, form["carrier"])
+        if data is not None:
+            return run_workbook(data, pretty=pretty, file_type="." + form["carrier"]["fmt"], **args)
+    wb = model.to_workbook_dict(form, with_headers=with_headers)
     return run_workbook(wb, pretty=pretty, **args)
+
+
+def spreadsheet_of(form, spec):
+    """the same workbook as an .xlsx / .xls file the way people keep them: header-less spacer columns between the headed ones and
+    number-looking cells typed as numbers (C12's equivalences).  None when a spreadsheet cannot carry the cells as they are
+    (untrimmed text, non-breaking spaces, control characters): the caller falls back to the dict input."""
+    import random
+
+    from vf import render
+    from vf.props import c12
+
+    r0 = random.Random(f"carrier:{spec.get('seed', 0)}")
+    grids = []
+    for name, head, rows in render.sheets_of(form):
+        for r in rows:
+            for v in r.values():
+                if not isinstance(v, str) or v != v.strip() or not v or "\xa0" in v or XML_ILLEGAL_RE.search(v) or len(v) > 30000:
+                    return None
+        if any(h != h.strip() or "\xa0" in h for h in head):
+            return None
+        cols = list(head)
+        if len(cols) > 1:
+            for _ in range(r0.choice([0, 1, 1, 2])):
+                cols.insert(r0.randrange(1, len(cols) + 1), None)
+        g = [[h for h in cols]]
+        for r in rows:
+            line = []
+            for h in cols:
+                v = r.get(h) if h is not None else None
+                if v is not None and h != "type" and r0.random() < 0.6:
+                    tv, kind = c12.typed_value(r0, v)
+                    if kind in ("typed-int", "typed-intfloat") or (kind == "typed-float" and not float(tv).is_integer()):
+                        v = tv
+                line.append(v)
+            g.append(line)
+        grids.append((name, g))
+    try:
+        return c12.grids_to_xlsx(grids) if spec["fmt"] == "xlsx" else c12.grids_to_xls(grids)
+    except Exception:  # noqa: BLE001  (the writer refuses the text: not a pyxform matter)
+        return None
 
 
 def err_class(e: BaseException) -> str:
